@@ -142,6 +142,154 @@ def reconstruction_keys(specs, reals, viol, disagreements, dist):
         shutil.rmtree(d, ignore_errors=True)
 
 
+# =================================================================== task classes in the `__main__` script
+SCRIPT = r'''"""generated by the C07 check: task and enum classes live in the executed script (__main__); a spawned
+process knows the same classes under `__mp_main__`"""
+import json
+import multiprocessing
+import os
+import sys
+from dataclasses import fields
+from enum import Enum
+
+import labtech
+from labtech.types import is_task
+from labtech.tasks import get_direct_dependency_instances
+
+
+class Mode(Enum):
+    A = 1
+    B = 2
+
+
+@labtech.task
+class Sq:
+    n: int
+
+    def run(self):
+        return self.n * self.n
+
+
+@labtech.task
+class Outer:
+    parts: list
+    mode: Mode
+    extra: dict
+
+    def run(self):
+        return len(self.parts)
+
+
+def closure(t, out):
+    out.append(t)
+    for d in get_direct_dependency_instances(t):
+        closure(d, out)
+    return out
+
+
+def label(t):
+    return repr(t)
+
+
+def report(tasks, path):
+    """runs in the spawned child: the cache_key ATTRIBUTE each received task object carries"""
+    rows = []
+    for t in tasks:
+        for x in closure(t, []):
+            rows.append([label(x), getattr(x, 'cache_key', None), type(x).__module__])
+    with open(path, 'w') as f:
+        json.dump(rows, f)
+
+
+def main():
+    import logging
+    labtech.logger.setLevel(logging.CRITICAL)
+    workdir, out = sys.argv[1], sys.argv[2]
+    tasks = [Sq(n=3), Outer(parts=[Sq(n=1), Sq(n=2)], mode=Mode.B, extra={'k': Sq(n=5), 'm': [Mode.A]})]
+    parent = [[label(x), x.cache_key, type(x).__module__] for t in tasks for x in closure(t, [])]
+    res = dict(parent=parent)
+    child_path = os.path.join(workdir, 'child.json')
+    p = multiprocessing.get_context('spawn').Process(target=report, args=(tasks, child_path))
+    p.start()
+    p.join(40)
+    if p.is_alive():
+        p.kill()
+    res['child'] = json.load(open(child_path)) if os.path.exists(child_path) else None
+    store = os.path.join(workdir, 'store')
+    lab = labtech.Lab(storage=store, runner_backend='spawn', max_workers=2)
+    results = lab.run_tasks(tasks, disable_progress=True, disable_top=True)
+    res['results'] = [results.get(t) for t in tasks]
+    res['stored_keys'] = sorted(n for n in os.listdir(store) if os.path.isdir(os.path.join(store, n)))
+    res['is_cached'] = [[label(x), bool(lab.is_cached(x))] for t in tasks for x in closure(t, [])]
+    with open(out, 'w') as f:
+        json.dump(res, f)
+    sys.stdout.flush()
+    os._exit(0)
+
+
+if __name__ == '__main__':
+    main()
+'''
+
+
+def start_script(hashseed):
+    import subprocess
+    import sys
+    import os
+    d = tempfile.mkdtemp(prefix='verif-c07s-')
+    script = os.path.join(d, 'experiment.py')
+    open(script, 'w').write(SCRIPT)
+    lf = open(os.path.join(d, 'log.txt'), 'w')
+    env = dict(os.environ, PYTHONPATH=pr.HERE + os.pathsep + os.environ.get('VERIF_REPO', '/repo'), PYTHONHASHSEED=str(hashseed))
+    p = subprocess.Popen([sys.executable, script, d, os.path.join(d, 'out.json')], stdout=lf, stderr=lf, stdin=subprocess.DEVNULL,
+                         start_new_session=True, env=env, cwd=d)
+    return dict(dir=d, p=p, lf=lf, hashseed=hashseed)
+
+
+def finish_script(h, timeout=90):
+    """returns (violations, infra_error)"""
+    import os
+    import signal
+    import subprocess
+    p = h['p']
+    try:
+        p.wait(timeout=timeout)
+    except subprocess.TimeoutExpired:
+        pass
+    try:
+        os.killpg(p.pid, signal.SIGKILL)
+    except (ProcessLookupError, PermissionError):
+        pass
+    p.wait()
+    h['lf'].close()
+    try:
+        outp = os.path.join(h['dir'], 'out.json')
+        if not os.path.exists(outp):
+            return [], 'C07 script scenario produced no output: ' + open(os.path.join(h['dir'], 'log.txt')).read()[-600:]
+        res = json.load(open(outp))
+    finally:
+        shutil.rmtree(h['dir'], ignore_errors=True)
+    viol = []
+    rp = dict(kind='script', hashseed=h['hashseed'])
+    tag = 'task classes defined in the __main__ script: '
+    if res['child'] is None:
+        viol.append(dict(what=tag + 'the spawned child could not receive the pickled tasks', replay=rp))
+    else:
+        for (lab_p, key_p, mod_p), (lab_c, key_c, mod_c) in zip(res['parent'], res['child']):
+            if key_c != key_p:
+                viol.append(dict(what=tag + f'{lab_p} has cache_key {key_p} in the parent but the pickled copy in a spawned process '
+                                              f'(class seen as {mod_c}) carries {key_c}', replay=rp))
+    want = sorted({k for _, k, _ in res['parent']})
+    if res['stored_keys'] != want:
+        viol.append(dict(what=tag + f"a spawn-backend run stored its results under {res['stored_keys']}, the parent's keys are {want}", replay=rp))
+    for lab_x, ok in res['is_cached']:
+        if not ok:
+            viol.append(dict(what=tag + f'{lab_x} was just run (spawn backend) but is not cached under its key', replay=rp))
+    if res['results'] != [9, 2]:
+        viol.append(dict(what=tag + f"spawn-backend run returned {res['results']}", replay=rp))
+    return viol, None
+
+
 def run_tree(spec):
     """replay of one constructor call"""
     from labtech.storage import LocalStorage
@@ -170,6 +318,12 @@ def run(ctx):
     dist = collections.Counter()
     if ctx.get('replay'):
         rp = json.load(open(ctx['replay']))['replay']
+        if rp.get('kind') == 'script':
+            v, infra = finish_script(start_script(rp.get('hashseed', 0)))
+            if infra:
+                return dict(infra_error=infra)
+            return dict(evaluations=1, distinct_nontrivial=0, rule=RULE, samples=[rp], violations=v, disagreements=[], distribution={},
+                        assumptions=[], explanation='replay of the __main__ script scenario')
         if rp.get('kind') == 'pair':
             viol = check_pair(rp['a'], rp['b'])
             return dict(evaluations=2, distinct_nontrivial=0, rule=RULE, samples=[rp], violations=viol, disagreements=[], distribution={},
@@ -177,6 +331,8 @@ def run(ctx):
         v, d = run_tree(rp['spec'])
         return dict(evaluations=1, distinct_nontrivial=0, rule=RULE, samples=[rp], violations=v, disagreements=d, distribution={},
                     assumptions=[], explanation='replay of one constructor call')
+
+    scripts = [start_script(hs) for hs in ([0] if ctx['tier'] == 'quick' else [0, 7, 12345])]
 
     # 1. corpus: D10 (the recorded collision) on the corpus types, and on this check's own types
     for rec in repro.run_many(['D10']):
@@ -287,6 +443,13 @@ def run(ctx):
             break
     finally:
         shutil.rmtree(storage_dir, ignore_errors=True)
+
+    for h in scripts:
+        v, infra = finish_script(h)
+        if infra:
+            return dict(infra_error=infra)
+        dist['main_script_scenarios'] += 1
+        viol += v
 
     # shrink the first new alarms
     done = set()
